@@ -865,8 +865,13 @@ class PteraTransformer(NodeTransformer):
             # the wrong length.
             leaves = []
 
-            def _temps(tgt):
-                if isinstance(tgt, (ast.Tuple, ast.List)):
+            def _temps(tgt, top=False):
+                # Only this level is unpacked here: a nested target gets a
+                # temporary as well and is unpacked when its turn comes, so
+                # that stores and unpacking happen in Python's order (the
+                # entries before a nested target are bound even if unpacking
+                # the nested value fails).
+                if top and isinstance(tgt, (ast.Tuple, ast.List)):
                     return type(tgt)(
                         elts=[_temps(elt) for elt in tgt.elts], ctx=ast.Store()
                     )
@@ -879,7 +884,9 @@ class PteraTransformer(NodeTransformer):
 
             accum = [
                 ast.copy_location(
-                    ast.Assign(targets=[_temps(targets[0])], value=node.value),
+                    ast.Assign(
+                        targets=[_temps(targets[0], top=True)], value=node.value
+                    ),
                     node,
                 )
             ]
